@@ -93,6 +93,7 @@ func init() {
 }
 
 func runC14(p *chk.Prog, r *chk.Report) {
+	registeredRule(p, r, frrPkg)
 	routerKeyRule(p, r, frrPkg, "createConfig")
 	sessionKeyRule(p, r, frrPkg)
 	scratchRule(p, r, frrPkg)
@@ -1076,6 +1077,26 @@ func c14Validate(p *chk.Prog, r *chk.Report, pkg string) {
 				cl, isLit := ast.Unparen(e).(*ast.CompositeLit)
 				return isLit && len(cl.Elts) == 0 || f.IsNilLit(e) || isEmptyMake(f, e)
 			})) != nil || f.MatchWith("slices.Clone(A)", rhs, chk.H("A", advs)) != nil
+			if !isCopy {
+				// a list made with one slot per argument and filled by copy(list, advs) before it is stored
+				if id, isId := ast.Unparen(rhs).(*ast.Ident); isId && f.ObjOf(id) != nil {
+					o := f.ObjOf(id)
+					defs := assignsTo(f, o)
+					sized := false
+					for _, d := range defs {
+						if as, isAs := d.(*ast.AssignStmt); isAs && len(as.Rhs) == 1 && f.MatchWith("make(T, len(A))", as.Rhs[0], chk.H("A", advs)) != nil {
+							sized = true
+						}
+					}
+					cps := g.FindPat("copy(N, A)", chk.H("N", f.IsObj(o)), chk.H("A", advs))
+					if sized && len(defs) == 1 && len(cps) == 1 {
+						top := cps[0].Top
+						if w := g.MustPass(chk.Site{}, func(n ast.Node) bool { return n == s.Top }, false, func(n ast.Node) bool { return n == top }); !w.Found {
+							isCopy = true
+						}
+					}
+				}
+			}
 			if !isCopy {
 				continue
 			}
